@@ -941,7 +941,8 @@ pub(crate) fn is_valid_duration(
 
     let normalized_seconds = normalized_seconds.saturating_add(normalized_subseconds_parts);
     // 8. If abs(normalizedSeconds) ≥ 2**53, return false.
-    if normalized_seconds.abs() >= TWO_POWER_FIFTY_THREE {
+    // NOTE: `unsigned_abs`: the saturated total can be `i128::MIN`, whose `abs()` overflows.
+    if normalized_seconds.unsigned_abs() >= TWO_POWER_FIFTY_THREE.unsigned_abs() {
         return false;
     }
 
